@@ -404,6 +404,9 @@ def gen_holes_case(rng):
 
 
 # ------------------------------------------------------------------ running the real code
+CALL_LIMIT_S = 20      # a single library call on these small inputs takes milliseconds
+
+
 def _call(site, fn, out, **kw):
     # the graph-based split keys its nodes by coordinates rounded to a grid
     # (network.coordinates_hash); when two computations of one and the same point fall on
@@ -418,6 +421,15 @@ def _call(site, fn, out, **kw):
         seen.append((point.x, point.y, k))
         return k
     _nw.coordinates_hash = spy
+    import signal
+
+    class CallTimeout(Exception):
+        pass
+
+    def _on_alarm(signum, frame):
+        raise CallTimeout('no answer within %d s' % CALL_LIMIT_S)
+    old_handler = signal.signal(signal.SIGALRM, _on_alarm)
+    signal.alarm(CALL_LIMIT_S)
     try:
         try:
             out.append(dict(site=site, result=fn(), err=None, **kw))
@@ -425,7 +437,10 @@ def _call(site, fn, out, **kw):
             out.append(dict(site=site, result=None,
                             err='%s: %s' % (type(e).__name__, str(e)[:160]), **kw))
     finally:
+        signal.alarm(0)
+        signal.signal(signal.SIGALRM, old_handler)
         _nw.coordinates_hash = orig
+        del seen[200000:]
     split = False
     if seen:
         byk = {}
